@@ -65,7 +65,7 @@ P = {
          "q_r(x,y) = p(y|x) p_r(x) is a probability density on R^(Dx+Dy) and the mu / Sigma of affine_marginal_transformation and of "
          "affine_joint_transformation are the mean vector and covariance matrix of q_r (C16J_marginal_mean/_cov, C16J_joint_mean/_cov; "
          "C16J_exp, C16J_coshM1, C16J_heaviside, C16J_relu; Tonelli/Fubini proved, heteroscedastic case under the decoupling hypothesis).", "§5 C16"),
- "C17": ("PARTIAL (known findings hetero-woodbury-Da>Dy, hetero-trunc-degenerate). GT.Props.C17 + GT.Props.C17Trunc + GT.Math.Bounds: C17_cov (all "
+ "C17": ("PARTIAL (known findings hetero-woodbury-Da>Dy, hetero-trunc-degenerate, hetero-trunc-far-tail). GT.Props.C17 + GT.Props.C17Trunc + GT.Math.Bounds: C17_cov (all "
          "links, all shapes), C17_precision_partial / C17_precision_square (Λ = Σ(x)⁻¹ and ln det under the decoupling hypothesis, which holds for "
          "Da = Dy), C17_counterexample (the full statement is false for Dy=1, Da=2), C17_lower_bound_exp / _coshM1 / _relu (returned value ≤ true "
          "expectation, integrability proved; ReLU: both Dx branches, ω* ≥ 0 proved), C17_step_equality (step link: returned value = true expectation, "
